@@ -1,8 +1,221 @@
 package main
 
-import . "verif/harness/hlib"
+// C33: block synchronisation through the real daemon message handlers (hook: daemon.VerifSyncNode).
 
-// C33 (sync) ops and generator: filled in by sync.go's later revision
-func syncExec(f []string) (string, bool) { return "", false }
+import (
+	"fmt"
+	"os"
+	"strconv"
+	"strings"
 
-func syncGen(r *Rng, tier string, emit func(string)) {}
+	"github.com/skycoin/skycoin/src/coin"
+	"github.com/skycoin/skycoin/src/daemon"
+	"github.com/skycoin/skycoin/src/daemon/gnet"
+
+	. "verif/harness/hlib"
+)
+
+const syncReqCount = 20
+
+func syncNode(n *node) *daemon.VerifSyncNode {
+	cfg := daemon.NewDaemonConfig()
+	cfg.GetBlocksRequestCount = syncReqCount
+	cfg.MaxGetBlocksResponseCount = 5
+	cfg.MaxOutgoingMessageLength = 256 * 1024
+	return daemon.NewVerifSyncNode(n.v, cfg)
+}
+
+func msgStr(kind string, m gnet.Message) string {
+	switch x := m.(type) {
+	case *daemon.AnnounceBlocksMessage:
+		return fmt.Sprintf("%s:ANNB(%d)", kind, x.MaxBkSeq)
+	case *daemon.GetBlocksMessage:
+		return fmt.Sprintf("%s:GETB(%d/%d)", kind, x.LastBlock, x.RequestedBlocks)
+	case *daemon.GiveBlocksMessage:
+		seqs := make([]string, len(x.Blocks))
+		for i := range x.Blocks {
+			seqs[i] = fmt.Sprintf("%d:%s", x.Blocks[i].Head.BkSeq, sh(x.Blocks[i].HashHeader()))
+		}
+		return fmt.Sprintf("%s:GIVB(%s)", kind, strings.Join(seqs, "+"))
+	}
+	return fmt.Sprintf("%s:%T", kind, m)
+}
+
+func drainStr(sn *daemon.VerifSyncNode) string {
+	sent, bc := sn.Drain()
+	var out []string
+	for _, m := range sent {
+		out = append(out, msgStr("send", m))
+	}
+	for _, m := range bc {
+		out = append(out, msgStr("bcast", m))
+	}
+	return "M" + strings.Join(out, ",")
+}
+
+func syncExec(f []string) (string, bool) {
+	switch f[0] {
+	case "give":
+		n := getNode(f[1])
+		var blocks []coin.SignedBlock
+		var anns []string
+		head := headHeader(n)
+		if f[2] != "-" {
+			for _, hx := range strings.Split(f[2], ",") {
+				b, err := decodeBlock(hx)
+				if err != nil {
+					return "Rdecode", true
+				}
+				blocks = append(blocks, b)
+				anns = append(anns, annBlock(&b, head))
+			}
+		}
+		sn := syncNode(n)
+		before := chainLen(n)
+		sn.ProcessGiveBlocks(blocks)
+		processed := chainLen(n) - before
+		return fmt.Sprintf("NB%d %s R%d %s %s", len(blocks), strings.Join(anns, " | "), processed, drainStr(sn), digest(n)), true
+	case "announce":
+		n := getNode(f[1])
+		sn := syncNode(n)
+		sn.ProcessAnnounceBlocks(PU64(f[2]))
+		return "Rok " + drainStr(sn), true
+	case "getblocks":
+		n := getNode(f[1])
+		sn := syncNode(n)
+		sn.ProcessGetBlocks(PU64(f[2]), PU64(f[3]))
+		hs := make([]string, len(sn.Heights))
+		for i, h := range sn.Heights {
+			hs[i] = strconv.FormatUint(h, 10)
+		}
+		return "Rok " + drainStr(sn) + " H" + strings.Join(hs, ","), true
+	}
+	return "", false
+}
+
+// syncGen: the publisher builds a chain; the follower is fed the blocks in arbitrary order with
+// duplication, loss, splitting into messages, forged and re-signed blocks.
+func syncGen(r *Rng, tier string, emit func(string)) {
+	nHist := 40
+	if tier == "thorough" {
+		nHist = 800
+	}
+	if v := os.Getenv("VERIF_HISTORIES"); v != "" {
+		nHist, _ = strconv.Atoi(v)
+	}
+	for h := 0; h < nHist; h++ {
+		g := &genCtx{r: r, emit: emit, avoidPending: true, conflictPct: 5}
+		g.prec = 1000
+		g.burn = 2
+		emit("reset arbF=0 gc=100000000000000 gt=1000 burn=2 maxtxn=32768 maxblk=32768 prec=3 ubf=2 umax=32768 uprec=3")
+		if world == nil {
+			continue
+		}
+		// publisher chain of 3..10 blocks (only P executes them)
+		want := 3 + r.Intn(8)
+		var chain []coin.SignedBlock
+		for tries := 0; len(chain) < want && tries < 60; tries++ {
+			if t, ok := g.makeTxn(g.node("P"), ""); ok {
+				emit("injf P " + txHex(&t))
+				g.pending = append(g.pending, t)
+			}
+			if r.Chance(60) {
+				emit("mkblock " + u(g.nextWhen()))
+				if sb := lastMade; sb != nil {
+					lastMade = nil
+					before := chainLen(g.node("P"))
+					emit("exec P " + encodeBlock(sb))
+					if chainLen(g.node("P")) > before {
+						chain = append(chain, *sb)
+					}
+				}
+			}
+		}
+		if len(chain) == 0 {
+			continue
+		}
+		// delivery schedule
+		var pool []coin.SignedBlock
+		for _, b := range chain {
+			if r.Chance(8) {
+				continue // lost
+			}
+			pool = append(pool, b)
+			if r.Chance(25) {
+				pool = append(pool, b) // duplicated
+			}
+		}
+		// forged / re-signed / mutated blocks
+		for i := 0; i < 1+r.Intn(3); i++ {
+			b := chain[r.Intn(len(chain))]
+			switch r.Intn(4) {
+			case 0: // forger signs the genuine block
+				b.Sig = mustSign(b, true)
+			case 1: // publisher-signed header with a changed time: not on the publisher's chain, needs the key
+				b.Head.Time += uint64(1 + r.Intn(5))
+				b.Sig = mustSign(b, true)
+			case 2: // signature bit flip
+				b.Sig[r.Intn(65)] ^= 1
+			case 3: // forged block with forged parent link
+				b.Head.PrevHash[r.Intn(8)] ^= 1
+				b.Sig = mustSign(b, true)
+			}
+			pool = append(pool, b)
+		}
+		mode := r.Intn(4)
+		switch mode {
+		case 0: // in order
+		case 1: // random permutation
+			for i := len(pool) - 1; i > 0; i-- {
+				j := r.Intn(i + 1)
+				pool[i], pool[j] = pool[j], pool[i]
+			}
+		case 2: // local swaps
+			for i := 0; i+1 < len(pool); i++ {
+				if r.Chance(30) {
+					pool[i], pool[i+1] = pool[i+1], pool[i]
+				}
+			}
+		case 3: // reversed
+			for i, j := 0, len(pool)-1; i < j; i, j = i+1, j-1 {
+				pool[i], pool[j] = pool[j], pool[i]
+			}
+		}
+		deliver := func(blocks []coin.SignedBlock) {
+			for len(blocks) > 0 {
+				k := 1 + r.Intn(5)
+				if k > len(blocks) {
+					k = len(blocks)
+				}
+				hx := make([]string, k)
+				for i := 0; i < k; i++ {
+					hx[i] = encodeBlock(&blocks[i])
+				}
+				emit("give F " + strings.Join(hx, ","))
+				blocks = blocks[k:]
+				if r.Chance(15) {
+					emit("announce F " + u(uint64(r.Intn(len(chain)+3))))
+				}
+				if r.Chance(10) {
+					emit("getblocks P " + u(uint64(r.Intn(len(chain)+2))) + " " + u(uint64(r.Intn(30))))
+				}
+			}
+		}
+		deliver(pool)
+		if r.Chance(50) { // a later complete in-order delivery: the follower must then reach the publisher's head
+			deliver(chain)
+		}
+		emit("give F -")
+		emit("checkdb F")
+	}
+}
+
+func mustSign(b coin.SignedBlock, forger bool) (sig [65]byte) {
+	k := secKey
+	if forger {
+		k = forgeSec
+	}
+	s := signHash(b.HashHeader(), k)
+	copy(sig[:], s[:])
+	return
+}
